@@ -5,6 +5,7 @@ import (
 	"context"
 	"math/rand"
 	"sync"
+	"sync/atomic"
 	"time"
 )
 
@@ -296,7 +297,9 @@ func (p *Pool[T]) Put(x T) {
 // Futures must be created by NewFuture and should not be copied after first use.
 type Future[T any] struct {
 	c chan struct{}
-	x T
+	// filled is set (atomically) by the first Fill, so that a second Fill panics before it touches x.
+	filled uint32
+	x      T
 }
 
 // NewFuture returns a ready-to-use Future.
@@ -311,6 +314,9 @@ func NewFuture[T any]() *Future[T] {
 //
 // Panics if f has already been filled.
 func (f *Future[T]) Fill(x T) {
+	if !atomic.CompareAndSwapUint32(&f.filled, 0, 1) {
+		panic("xsync: Fill of a Future that has already been filled")
+	}
 	f.x = x
 	close(f.c)
 }
